@@ -172,7 +172,7 @@ func c18(p *core.Prog, res *core.Result) {
 			}
 			// if err != nil { errorCount++ … } else { insertCount++; stream <- … }   after a Validate call
 			be, ok := is.Cond.(*ast.BinaryExpr)
-			if !ok || be.Op != token.NEQ || !isNilIdent2(info, be.Y) {
+			if !ok || (be.Op != token.NEQ && be.Op != token.EQL) || !isNilIdent2(info, be.Y) {
 				return true
 			}
 			errObj := defOrUse(info, be.X)
@@ -197,13 +197,19 @@ func c18(p *core.Prog, res *core.Result) {
 			k++
 			key := fmt.Sprintf("server.GripServer.BulkAdd|validate#%d", k)
 			var problems []string
-			if incs(is.Body, errorVar) != 1 {
+			// `err != nil`: body = failure, else = success; `err == nil`: the other way round
+			failB, okB := is.Body, (*ast.BlockStmt)(nil)
+			okB, _ = is.Else.(*ast.BlockStmt)
+			if be.Op == token.EQL {
+				failB, okB = okB, is.Body
+			}
+			if failB == nil || incs(failB, errorVar) != 1 {
 				problems = append(problems, "the validation-failure branch does not increment the error counter exactly once")
 			}
-			if sends(is.Body) != 0 {
+			if failB != nil && sends(failB) != 0 {
 				problems = append(problems, "the validation-failure branch sends the invalid element to the loader")
 			}
-			eb, _ := is.Else.(*ast.BlockStmt)
+			eb := okB
 			if eb == nil || sends(eb) != 1 || incs(eb, insertVar) != 1 {
 				problems = append(problems, "the accepted branch does not pair exactly one send with exactly one increment of the insert counter")
 			}
